@@ -75,7 +75,9 @@ func mkSV(mask int, variant int) spec.SchemaValidations {
 		if variant%2 == 0 {
 			v.Enum = []interface{}{}
 		} else {
-			v.Enum = []interface{}{"a", "b"}
+			// contents and length vary with the variant: a writer that reuses storage shows
+			v.Enum = [][]interface{}{{"a", "b"}, {"c"}, {"d", "e", "f"}}[variant/2%3]
+			v.Enum = append([]interface{}{}, v.Enum...)
 		}
 	}
 	if has(12) {
@@ -459,6 +461,27 @@ func runC20(c *Ctx) {
 			want := mkCarrier(kind, other, markers)
 			if !reflect.DeepEqual(y, want) {
 				fail("set-frame", "SetValidations(v) on a carrier differs from a carrier built with v")
+			}
+			// 3a. save, overwrite, restore: a set that was read is a value - writing another set to the object does not
+			// change it, and writing it back restores the object
+			{
+				z := mkCarrier(kind, init, markers)
+				saved := z.Validations()
+				z.SetValidations(mkSV((mask*31+7)&(1<<15-1)|mask, (variant+2)%6)) // same keywords and more, other values
+				z.SetValidations(other)
+				if !reflect.DeepEqual(saved, restrict(kind, mkSV(mask, variant))) {
+					fail("saved-set-changed", fmt.Sprintf("a validation set read from the object changed when other sets were written to the object: now %v, was %v", svPlain(saved), svPlain(restrict(kind, mkSV(mask, variant)))))
+				}
+				z.SetValidations(saved)
+				if !reflect.DeepEqual(z.Validations(), restrict(kind, mkSV(mask, variant))) {
+					fail("restore", fmt.Sprintf("writing back a saved set after other writes reads %v, want %v", svPlain(z.Validations()), svPlain(restrict(kind, mkSV(mask, variant)))))
+				}
+				// two carriers built from one set are independent of each other
+				a1, a2 := mkCarrier(kind, init, markers), mkCarrier(kind, init, markers)
+				a1.SetValidations(mkSV((mask*31+7)&(1<<15-1)|mask, (variant+4)%6))
+				if !reflect.DeepEqual(a2.Validations(), restrict(kind, mkSV(mask, variant))) {
+					fail("carriers-share-storage", "writing to one carrier changed another carrier built from the same validation set")
+				}
 			}
 			// 3b. the fluent writers (WithValidations) are writers too: same effect as SetValidations, whatever else
 			// the carrier holds (a body parameter keeps its payload schema untouched)
